@@ -172,21 +172,30 @@ func ruleSeenCommitFull(c *Ctx) {
 
 func ruleValidateBeforePersist(c *Ctx) {
 	w := c.W
-	n := 0
-	for _, f := range w.FuncsInPkg("blockchain/v0") {
-		saves := w.callsTo(f, "store#BlockStore.SaveBlock")
-		for _, sv := range saves {
-			n++
-			first := w.expr(callArgs(sv)[0])
-			st := ""
-			for _, ap := range w.callsTo(f, specApply) {
-				st = w.expr(callArgs(ap)[0])
+	for _, pkg := range []string{"blockchain/v0", "blockchain/v1", "blockchain/v2"} {
+		n := 0
+		for _, f := range w.FuncsInPkg(pkg) {
+			var saves []ssa.CallInstruction
+			saves = append(saves, w.callsTo(f, "store#BlockStore.SaveBlock")...)
+			if pkg == "blockchain/v2" {
+				// v2 persists through its processor context
+				saves = nil
+				for _, call := range callInstrs(f) {
+					if strings.HasSuffix(calleeName(call), "processorContext.saveBlock") {
+						saves = append(saves, call)
+					}
+				}
 			}
-			c.guards(f, sv, funcKey(f)+" :: SaveBlock", 0, guardRe("ValidateBlock(state, first) = nil", `^nil\(.*\.ValidateBlock\(`+q(st)+`, `+q(first)+`\)\)$`))
+			for _, sv := range saves {
+				n++
+				first := w.expr(callArgs(sv)[0])
+				c.guards(f, sv, funcKey(f)+" :: persist block", 0,
+					guardRe("the block passed full validation against the node's state", `^nil\(.*\.[vV]alidateBlock\((.*, )?`+q(first)+`\)\)$`))
+			}
 		}
-	}
-	if n == 0 {
-		c.Undecided("v0 persistence", "-", "no SaveBlock in blockchain/v0")
+		if n == 0 {
+			c.Undecided(pkg+" persistence", "-", "no block persistence call found in "+pkg)
+		}
 	}
 }
 
@@ -285,7 +294,7 @@ func init() {
 	register("C13", "R7", "K1+K5", "a delivered block is accepted only from the peer its height was requested from (all three implementations)", 9, ruleOnlyFromRequestedPeer)
 	register("C13", "R1", "K1+K5", "every block-sync implementation stores/executes a block only after the next block's commit verified for exactly its hash and part-set header under the running state's validators", 20, ruleBlockSync)
 	register("C13", "R2", "K1", "the commit stored as seen commit was verified in full", 3, ruleSeenCommitFull)
-	register("C13", "R3", "K1", "v0: full block validation before persistence", 1, ruleValidateBeforePersist)
+	register("C13", "R3", "K1", "v0, v1, v2: full block validation (ValidateBlock against the node's own state) before the block is persisted", 3, ruleValidateBeforePersist)
 	register("C13", "R5", "K1", "hand-over: consensus rebuilds LastCommit from the stored seen commit and requires +2/3", 4, ruleReconstructLastCommit)
 	register("C13", "R6", "K1+K11", "the commit verifiers block sync relies on (same rule as C07.R1)", 26, ruleCommitTally)
 }
